@@ -9,7 +9,7 @@ use serde_json::{json, Value as J};
 use std::collections::HashMap;
 
 pub const NAN_TOKEN: i64 = -99;
-const WEIRD: [u32; 8] = [
+const WEIRD: [u32; 11] = [
     0x8000_0000, // -0.0
     0x0000_0001, // smallest subnormal
     0x7F7F_FFFF, // f32::MAX
@@ -18,6 +18,9 @@ const WEIRD: [u32; 8] = [
     0x3EAA_AAAB, // 1/3
     0x0080_0000, // smallest normal
     0xC2F6_E979, // -123.456
+    0x7F80_0000, // +infinity
+    0xFF80_0000, // -infinity
+    0x7FC0_0001, // a NaN with a payload bit
 ];
 
 pub fn chrom_name(i: i64) -> String {
@@ -28,6 +31,7 @@ pub fn chrom_name(i: i64) -> String {
 pub struct Ctx {
     pub scale: u32,
     pub vmap: String,
+    pub voff: i64,   // rotates the table of special values, so that tokens 1..3 reach every entry over the cases
     pub unmapped: bool,
     pub nonint: bool,
     pub names: Vec<String>, // index-1 -> name
@@ -39,6 +43,7 @@ impl Ctx {
         Ctx {
             scale: c["scale"].as_u64().unwrap_or(1) as u32,
             vmap: c["vmap"].as_str().unwrap_or("int").to_string(),
+            voff: c["voff"].as_i64().unwrap_or(0),
             unmapped: false,
             nonint: false,
             // "varlen": names of very different lengths (the chromosome tree pads every key to the longest) that still sort like
@@ -62,19 +67,19 @@ impl Ctx {
     }
     pub fn val_in(&self, t: i64) -> f32 {
         if self.vmap == "weird" {
-            f32::from_bits(WEIRD[(t.rem_euclid(WEIRD.len() as i64)) as usize])
+            f32::from_bits(WEIRD[((t + self.voff).rem_euclid(WEIRD.len() as i64)) as usize])
         } else {
             t as f32
         }
     }
     pub fn val_out(&mut self, v: f32) -> i64 {
-        if v.is_nan() {
+        if v.is_nan() && self.vmap != "weird" {
             return NAN_TOKEN;
         }
         if self.vmap == "weird" {
             for (i, b) in WEIRD.iter().enumerate() {
                 if v.to_bits() == *b {
-                    return i as i64;
+                    return (i as i64 - self.voff).rem_euclid(WEIRD.len() as i64);
                 }
             }
             self.nonint = true;
